@@ -328,8 +328,8 @@ def derTSIZEDec (der : List UInt8) (tag : Nat) : R (Nat × Nat) :=
             | .oob => .oob
           else .ok (len = 9 ∧ d0 ≠ 0)
         match c2 with
-        | .ok true => .err
-        | .ok false =>
+        | .ok bad =>
+          if bad then .err else
           match sizeLoop der2 len 0 0 with
           | .ok v => .ok (v, (t_count + l_count + len) % W)
           | .err => .err
